@@ -505,6 +505,19 @@ func (d *driverCfg) confirm(eng Engine, job *Job, res *Result, hist []Job) *Resu
 				break
 			}
 		}
+		if (r2 == nil || r2.Verdict != "violation") && len(hist) > 0 && len(res.Case.PriorJobs) == 0 {
+			// does it need what this worker had executed before (state left by an earlier build)?
+			c3 := cloneCase(res.Case)
+			c3.PriorJobs = hist
+			j3 := *job
+			j3.Case = c3
+			if r3, died3, _ := d.runAlone(&j3); !died3 && r3 != nil && r3.Verdict == "violation" {
+				r3.Case = c3
+				r3.Sig += " (depends on earlier builds in the same process)"
+				r3.Msg = fmt.Sprintf("the violation does not occur when the case is executed alone in a fresh process; it occurs after the %d runs the worker had executed before it (prior_jobs in the replay file)\n", len(hist)) + r3.Msg
+				return r3
+			}
+		}
 		if r2 == nil || r2.Verdict != "violation" {
 			res.Msg = "(the race report was not observed again in 4 fresh executions of the recorded schedule; the report of the original run follows)\n" + res.Msg
 			return res
